@@ -1,6 +1,6 @@
 package main
 
-// Verification harness for C13 (uses fixture_test.go): every file kind of a generated epoch is cut short at
+// Verification harness for C13 (uses fixture_test.go; more helpers in c13b_test.go): every file kind of a generated epoch is cut short at
 // byte offsets (exhaustively for small files; structure boundaries +-2 and a random sample for large ones)
 // and every stored key is looked up on the truncated copy: the answer must be the complete file's answer
 // or an error — never "not found", an empty result or another value. Every ReadAt the real readers issue
@@ -73,6 +73,7 @@ type vc13Run struct {
 	cases *vh.CasesFile
 	rng   *vh.Rng
 	nCoq  map[string]int
+	noted map[string]bool // notes already written (c13b_test.go)
 }
 
 // record one truncated lookup. kind: file kind; complete/trunc: canonical answers ("v:<hex>", "notfound", "err").
@@ -174,7 +175,7 @@ func vc13Err(err error) string {
 
 func TestVerif_C13(t *testing.T) {
 	rep := vh.NewReport("C13", "truncation",
-		"one generated epoch with address index; for each file kind (cid-to-offset-and-size, slot-to-cid, sig-to-cid, gsfa pubkey index, sig-exists, slot-to-blocktime, gsfa linked log / manifest, CAR) cut points (exhaustive for files <= 1.5 KB quick / 6 KB thorough, else structure boundaries +-2 and a random sample) x every stored key (+ absent keys); a case = one lookup on a truncated copy; non-trivial = cut strictly inside the file")
+		"one generated epoch with address index; for each file kind (cid-to-offset-and-size, slot-to-cid, sig-to-cid, gsfa pubkey index — each opened over a ReaderAt both with prefetch off and as the server opens a remote index, Prefetch(true); a generated 3-bucket index larger than the prefetch window; sig-exists, slot-to-blocktime, gsfa linked log / manifest, CAR) cut points (exhaustive for files <= 1.5 KB quick / 6 KB thorough, else structure boundaries +-2 and a random sample) x every stored key (+ absent keys); the gsfa manifest at EVERY cut offset (gsfa.NewGsfaReader, NewManifest+ReadAll: version, metadata, tuples, file bytes untouched); a case = one lookup / open on a truncated copy; non-trivial = cut strictly inside the file")
 	cases := vh.NewCases("cases_c13", []string{"YF.C13_Trunc"}, "case", "check")
 	seed := vh.Seed()
 	sp := vfxDefaultSpec("c13", 2, seed)
@@ -185,7 +186,7 @@ func TestVerif_C13(t *testing.T) {
 		t.Fatalf("setup failed: %v %s", err, truths[0].BuildErr)
 	}
 	tr := truths[0]
-	x := &vc13Run{rep: rep, cases: cases, rng: vh.NewRng(seed + 1), nCoq: map[string]int{}}
+	x := &vc13Run{rep: rep, cases: cases, rng: vh.NewRng(seed + 1), nCoq: map[string]int{}, noted: map[string]bool{}}
 	sample := 120
 	if vh.Thorough() {
 		sample = 1500
@@ -205,7 +206,8 @@ func TestVerif_C13(t *testing.T) {
 		}()
 		return f()
 	}
-	// ---------------- compact indexes
+	// ---------------- compact indexes over an io.ReaderAt, as a local index is opened and as the server opens an index
+	// whose URI is remote (Prefetch(true) after the open, see epoch.go); helpers in c13b_test.go
 	{
 		data := rd(tr.Paths.CidToOffsetAndSize)
 		var keys []cid.Cid
@@ -213,55 +215,39 @@ func TestVerif_C13(t *testing.T) {
 			keys = append(keys, vfxCidFromHex(o.Cid))
 		}
 		keys = append(keys, vfxMkCid([]byte("absent-1"), false), vfxMkCid([]byte("absent-2"), false))
-		open := func(r *vc13Reader) (ix *indexes.CidToOffsetAndSize_Reader) {
-			defer func() { recover() }()
-			ix, err := indexes.OpenWithReader_CidToOffsetAndSize(r)
-			if err != nil {
-				return nil
-			}
-			return ix
-		}
-		look := func(ix *indexes.CidToOffsetAndSize_Reader, k cid.Cid) string {
-			if ix == nil {
-				return "err"
-			}
-			return safe(func() string {
-				v, err := ix.Get(k)
-				if err != nil {
-					return vc13Err(err)
-				}
-				return fmt.Sprintf("v:%d/%d", v.Offset, v.Size)
-			})
-		}
-		complete := map[string]string{}
-		full := open(&vc13Reader{data: data})
-		for _, k := range keys {
-			complete[k.KeyString()] = look(full, k)
-		}
-		for _, cut := range x.cuts(len(data), nil, sample) {
-			r := &vc13Reader{data: data[:cut]}
-			ix := open(r)
-			for _, k := range keys {
-				r.reset()
-				got := look(ix, k)
-				if ix == nil {
-					r = nil
-				}
-				x.observe("cid-to-offset-and-size", cut, len(data), k.String(), complete[k.KeyString()], got, r)
-				if r == nil {
-					r = &vc13Reader{}
-				}
-			}
-		}
 		var names []string
 		for _, k := range keys {
 			names = append(names, k.String())
 		}
-		x.directed("cid-to-offset-and-size", data, names, func(r *vc13Reader, i int) (string, bool) {
-			ix := open(r)
-			return look(ix, keys[i]), ix != nil
+		x.sweepCI("cid-to-offset-and-size", data, names, nil, sample, func(r *vc13Reader, prefetch bool) func(i int) string {
+			ix := func() (ix *indexes.CidToOffsetAndSize_Reader) {
+				defer func() {
+					if recover() != nil {
+						ix = nil
+					}
+				}()
+				ix, err := indexes.OpenWithReader_CidToOffsetAndSize(r)
+				if err != nil {
+					return nil
+				}
+				if prefetch {
+					ix.Prefetch(true)
+				}
+				return ix
+			}()
+			if ix == nil {
+				return nil
+			}
+			return func(i int) string {
+				return safe(func() string {
+					v, err := ix.Get(keys[i])
+					if err != nil {
+						return vc13Err(err)
+					}
+					return fmt.Sprintf("v:%d/%d", v.Offset, v.Size)
+				})
+			}
 		})
-		rep.Count(fmt.Sprintf("file:cid-to-offset-and-size bytes=%d keys=%d", len(data), len(keys)))
 	}
 	{
 		data := rd(tr.Paths.SlotToCid)
@@ -270,49 +256,39 @@ func TestVerif_C13(t *testing.T) {
 			keys = append(keys, b.Slot)
 		}
 		keys = append(keys, tr.base()+431999, tr.base()+777)
-		open := func(r *vc13Reader) (ix *indexes.SlotToCid_Reader) {
-			defer func() { recover() }()
-			ix, err := indexes.OpenWithReader_SlotToCid(r)
-			if err != nil {
-				return nil
-			}
-			return ix
-		}
-		look := func(ix *indexes.SlotToCid_Reader, k uint64) string {
-			if ix == nil {
-				return "err"
-			}
-			return safe(func() string {
-				v, err := ix.Get(k)
-				if err != nil {
-					return vc13Err(err)
-				}
-				return "v:" + v.String()
-			})
-		}
-		full := open(&vc13Reader{data: data})
-		for _, cut := range x.cuts(len(data), nil, sample) {
-			r := &vc13Reader{data: data[:cut]}
-			ix := open(r)
-			for _, k := range keys {
-				r.reset()
-				got := look(ix, k)
-				rr := r
-				if ix == nil {
-					rr = nil
-				}
-				x.observe("slot-to-cid", cut, len(data), fmt.Sprint(k), look(full, k), got, rr)
-			}
-		}
 		var names []string
 		for _, k := range keys {
 			names = append(names, fmt.Sprint(k))
 		}
-		x.directed("slot-to-cid", data, names, func(r *vc13Reader, i int) (string, bool) {
-			ix := open(r)
-			return look(ix, keys[i]), ix != nil
+		x.sweepCI("slot-to-cid", data, names, nil, sample, func(r *vc13Reader, prefetch bool) func(i int) string {
+			ix := func() (ix *indexes.SlotToCid_Reader) {
+				defer func() {
+					if recover() != nil {
+						ix = nil
+					}
+				}()
+				ix, err := indexes.OpenWithReader_SlotToCid(r)
+				if err != nil {
+					return nil
+				}
+				if prefetch {
+					ix.Prefetch(true)
+				}
+				return ix
+			}()
+			if ix == nil {
+				return nil
+			}
+			return func(i int) string {
+				return safe(func() string {
+					v, err := ix.Get(keys[i])
+					if err != nil {
+						return vc13Err(err)
+					}
+					return "v:" + v.String()
+				})
+			}
 		})
-		rep.Count(fmt.Sprintf("file:slot-to-cid bytes=%d keys=%d", len(data), len(keys)))
 	}
 	var sigs []solana.Signature
 	for _, b := range tr.Blocks {
@@ -325,50 +301,94 @@ func TestVerif_C13(t *testing.T) {
 	{
 		data := rd(tr.Paths.SignatureToCid)
 		keys := append(append([]solana.Signature(nil), sigs...), absentSig)
-		open := func(r *vc13Reader) (ix *indexes.SigToCid_Reader) {
-			defer func() { recover() }()
-			ix, err := indexes.OpenWithReader_SigToCid(r)
-			if err != nil {
-				return nil
-			}
-			return ix
-		}
-		look := func(ix *indexes.SigToCid_Reader, k solana.Signature) string {
-			if ix == nil {
-				return "err"
-			}
-			return safe(func() string {
-				v, err := ix.Get(k)
-				if err != nil {
-					return vc13Err(err)
-				}
-				return "v:" + v.String()
-			})
-		}
-		full := open(&vc13Reader{data: data})
-		for _, cut := range x.cuts(len(data), nil, sample) {
-			r := &vc13Reader{data: data[:cut]}
-			ix := open(r)
-			for _, k := range keys {
-				r.reset()
-				got := look(ix, k)
-				rr := r
-				if ix == nil {
-					rr = nil
-				}
-				x.observe("sig-to-cid", cut, len(data), k.String()[:12], look(full, k), got, rr)
-			}
-		}
 		var names []string
 		for _, k := range keys {
 			names = append(names, k.String()[:12])
 		}
-		x.directed("sig-to-cid", data, names, func(r *vc13Reader, i int) (string, bool) {
-			ix := open(r)
-			return look(ix, keys[i]), ix != nil
+		x.sweepCI("sig-to-cid", data, names, nil, sample, func(r *vc13Reader, prefetch bool) func(i int) string {
+			ix := func() (ix *indexes.SigToCid_Reader) {
+				defer func() {
+					if recover() != nil {
+						ix = nil
+					}
+				}()
+				ix, err := indexes.OpenWithReader_SigToCid(r)
+				if err != nil {
+					return nil
+				}
+				if prefetch {
+					ix.Prefetch(true)
+				}
+				return ix
+			}()
+			if ix == nil {
+				return nil
+			}
+			return func(i int) string {
+				return safe(func() string {
+					v, err := ix.Get(keys[i])
+					if err != nil {
+						return vc13Err(err)
+					}
+					return "v:" + v.String()
+				})
+			}
 		})
-		rep.Count(fmt.Sprintf("file:sig-to-cid bytes=%d keys=%d", len(data), len(keys)))
 	}
+	// the fourth compact-index kind (the address index's pubkey-to-offset-and-size file) over a ReaderAt too; below it is
+	// also cut on disk inside its directory and read through gsfa.NewGsfaReader
+	if tr.GsfaDir != "" {
+		data := rd(filepath.Join(tr.GsfaDir, string(indexes.Kind_PubkeyToOffsetAndSize)+".index"))
+		seen := map[string]bool{}
+		var keys []solana.PublicKey
+		for _, b := range tr.Blocks {
+			for _, txx := range b.Txs {
+				for _, a := range append(append([]string(nil), txx.Accounts...), txx.Loaded...) {
+					if !seen[a] {
+						seen[a] = true
+						keys = append(keys, solana.MustPublicKeyFromBase58(a))
+					}
+				}
+			}
+		}
+		sort.Slice(keys, func(i, j int) bool { return keys[i].String() < keys[j].String() })
+		keys = append(keys, vfxAccount(977, 1), vfxAccount(977, 2)) // (almost surely) absent
+		var names []string
+		for _, k := range keys {
+			names = append(names, k.String()[:12])
+		}
+		x.sweepCI("pubkey-to-offset-and-size", data, names, nil, sample, func(r *vc13Reader, prefetch bool) func(i int) string {
+			ix := func() (ix *indexes.PubkeyToOffsetAndSize_Reader) {
+				defer func() {
+					if recover() != nil {
+						ix = nil
+					}
+				}()
+				ix, err := indexes.OpenWithReader_PubkeyToOffsetAndSize(r)
+				if err != nil {
+					return nil
+				}
+				if prefetch {
+					ix.Prefetch(true)
+				}
+				return ix
+			}()
+			if ix == nil {
+				return nil
+			}
+			return func(i int) string {
+				return safe(func() string {
+					v, err := ix.Get(keys[i])
+					if err != nil {
+						return vc13Err(err)
+					}
+					return fmt.Sprintf("v:%d/%d", v.Offset, v.Size)
+				})
+			}
+		})
+	}
+	// a generated index with several buckets, each larger than the prefetch window
+	x.bigIndex(vfxCidFromHex(tr.Objects[0].Cid), sample)
 	// ---------------- sig-exists
 	{
 		data := rd(tr.Paths.SignatureExists)
@@ -483,7 +503,7 @@ func TestVerif_C13(t *testing.T) {
 					continue
 				}
 				c := vfxCidFromHex(o.Cid)
-				want := "v:" + vh.Hex(data[o.Offset+o.SecLen-vc01DataLenC10(data, o):o.Offset+o.SecLen])
+				want := "v:" + vh.Hex(data[o.Offset+o.SecLen-vc13DataLen(data, o):o.Offset+o.SecLen])
 				r := &vc13Reader{data: data[:cut]}
 				got := safe(func() string {
 					b, err := readNodeFromReaderAtWithOffsetAndSize(r, &c, o.Offset, o.SecLen)
@@ -577,6 +597,12 @@ func TestVerif_C13(t *testing.T) {
 			rep.Count(fmt.Sprintf("file:gsfa-%s bytes=%d", victim, len(full)))
 		}
 	}
+	// ---------------- the manifest cut at EVERY offset: open fails, or version / metadata / contents are the complete
+	// file's, and the open leaves the file's bytes alone (c13b_test.go)
+	if tr.GsfaDir != "" {
+		x.manifestSweepDir(tr.GsfaDir, []string{string(indexes.Kind_PubkeyToOffsetAndSize) + ".index", "linked-log", "manifest"})
+	}
+	x.manifestSweepFile(vfxCidFromHex(tr.Objects[0].Cid))
 	// ---------------- address index with MULTI-RECORD chains (an address with more than one flushed batch): a cut
 	// inside the trailing 9-byte previous-record pointer of the newest record must not end the walk silently
 	{
